@@ -9,7 +9,7 @@ if [ -n "$(git -C /repo status --porcelain)" ]; then echo "/repo not clean"; exi
 for d in sensitivity/${1:-}*.diff; do
   name=$(basename "$d" .diff)
   expect=$(cat "sensitivity/$name.expect")
-  git -C /repo apply "$d" || { echo -e "$name\tPATCH-DOES-NOT-APPLY" >> "$out"; continue; }
+  git -C /repo apply "/verif/$d" || { echo -e "$name\tPATCH-DOES-NOT-APPLY" >> "$out"; continue; }
   tests=$(cd /repo && cargo test --workspace --no-fail-fast --offline 2>&1 | grep -c "^test result: ok. 35 passed")
   if [ -z "$expect" ]; then run="C03 C11 C12 C13 C14 C15 C16 C18"; else run="$expect"; fi
   fired=""; errs=""
